@@ -196,6 +196,7 @@ PROPS["C15"] = {
         "decided (group finish): FinishImpl::finish on the model container VComp/VStream (prelude/comp.rs, rule X3c): it returns Ok only when no part is left marked modified, and a modified mark is cleared -- on ANY return path -- only together with a completed write of that part: the stream was handed to a serializer that returned Ok, or everything written to it was flushed successfully before its scope ended (the implicit drop is made explicit by rule X11). Package is reduced to the four fields finish touches (X10)",
         "imported into group finish without re-proof: the serializer contracts of group serial ('Ok only after flush'), stated as stream_done(id) -- a timeless predicate over stream ids, sound because an id is handed out once and a stream is consumed once; the size precondition ps_fits of PropertySet::write (section size fits u32) is not re-established by finish",
         "decided (group finish): Package::flush returns Ok only when the pending finisher (if any) ran successfully and CompoundFile::flush succeeded; Box<dyn Finish<F>> is read as Box<FinishImpl> (closed world: the private trait has one implementor)",
+        "decided for READ faults (groups readers, rows): the source model VSource distinguishes the end of the data (an error of kind UnexpectedEof) from a failure of the medium (`failed()`); every reader under contract returns Err when the medium failed during the call (found and fixed: read_from_pool took any error for the end of the pool), and returns Ok whenever the bytes suffice and no fault occurs; seek faults are modelled the same way",
         "NOT covered: into_inner / Drop, the invariant 'a modified part implies a pending finisher' (established by the mutating API methods), the table-stream call sites in query.rs and create_table (write_rows is handed the stream by value there too, but those functions are outside the extractable subset), user-held StreamWriters, read/seek faults, the cfb container itself",
     ],
 }
@@ -212,7 +213,11 @@ PROPS["C11"]["verus"]["pkgstreams"] = ["Package::has_stream", "Package::read_str
                                        "Package::remove_digital_signature", "Package::comp", "Package::comp_mut", "StreamWriter::new", "StreamReader::new"]
 FAULT_PROBES = {fn: ["faults"] for fn in ["Table::write_rows", "StringPool::write_pool", "StringPool::write_data", "PropertySet::write",
                                             "SummaryInfo::write", "FinishImpl::finish", "Package::flush"]}
-PROPS["C15"]["probes"] = FAULT_PROBES
+PROPS["C15"]["probes"] = dict(FAULT_PROBES, **{fn: ["readfaults"] for fn in ["StringPoolBuilder::read_from_pool", "StringPoolBuilder::build_from_data",
+                                                                                "Table::read_rows", "PropertySet::read", "PropertyValue::read", "ColumnType::read_value", "StringRef::read"]})
+PROPS["C15"]["verus"]["readers"] = ["StringRef::read", "ColumnType::read_value", "Timestamp::read_from", "PropertyValue::read", "StringPoolBuilder::read_from_pool",
+                                    "StringPoolBuilder::build_from_data", "PropertySet::read"]
+PROPS["C15"]["verus"]["rows"] = ["Table::read_rows"]
 PROPS["C09"]["probes"] = {"StringPoolBuilder::build_from_data": ["zerorc"], "StringPool::decref": ["dangling"], "ValueRef::remove": ["dangling"]}
 PROPS["C08"]["probes"] = {"StringPool::decref": ["dangling"], "ValueRef::remove": ["dangling"]}
 PROPS["C02"]["probes"] = {"StringPoolBuilder::build_from_data": ["zerorc"]}
